@@ -209,7 +209,11 @@ def map(
     # Distance to the plane
     diagonal = np.sqrt(ndim)
     xyz = position - origin
-    selection_distance = 0.5 * diagonal * (dz if thick else cell_size)
+    selection_distance = 0.5 * diagonal * cell_size
+    if thick:
+        # a cell is cut by the slab if its centre is closer than half the slab
+        # thickness plus half the cell diagonal
+        selection_distance = selection_distance + 0.5 * dz
 
     normal = basis.n
     vec_u = basis.u
